@@ -124,8 +124,42 @@ fn ties_file(imports: usize, methods: usize) -> &'static str {
     Box::leak(t.into_boxed_str())
 }
 
+/// unused imports (hash-ordered) + methods whose argument draws a Warning and an Error at the
+/// same start position (`Map x`: raw map + missing direction)
+fn map_ties_file(imports: usize, methods: usize) -> &'static str {
+    let mut t = String::from("package o;\n");
+    for i in 0..imports {
+        t.push_str(&format!("import d.X{i};\n"));
+    }
+    t.push_str("interface Big {\n");
+    for i in 0..methods {
+        t.push_str(&format!("    void m{i}(Map x{i});\n"));
+    }
+    t.push_str("}\n");
+    Box::leak(t.into_boxed_str())
+}
+
 fn projects() -> Vec<Project> {
     let mut v = base_projects();
+    v.push(Project {
+        name: "ties-13-imports-8-raw-map-methods",
+        files: vec![("obs", map_ties_file(13, 8))],
+        dup_ids: vec![],
+    });
+    v.push(Project {
+        name: "ties-30-imports-10-raw-map-methods",
+        files: vec![("obs", map_ties_file(30, 10))],
+        dup_ids: vec![],
+    });
+    v.push(Project {
+        name: "forward-declaration-in-another-file",
+        files: vec![
+            ("a", "package a; parcelable Payload; parcelable Extra; interface A { void f(in Payload p); }"),
+            ("b", "package b; interface B { void g(in Payload p, in Extra e); }"),
+            ("c", "package c; parcelable C { Payload p; List<Extra> l; }"),
+        ],
+        dup_ids: vec![],
+    });
     for (name, i, m) in [
         ("ties-40-imports-6-methods", 40usize, 6usize),
         ("ties-25-imports-6-methods", 25, 6),
@@ -688,7 +722,7 @@ pub fn run(tier: Tier, seed: u64) -> i32 {
     let multi = stats.states.load(std::sync::atomic::Ordering::Relaxed) > 1000;
     finish(
         &stats,
-        "19 projects built to collide (several diagnostics on one line, several unresolved / unused imports and forward declarations, two imports matching one name, a declaration conflicting with several imports, one key registered twice, files without a tree, recovered syntax errors after validation diagnostics) x insertion orders (all permutations up to the stated cap) x plain / replace histories x base keys of new threads x repeated validate() calls; hash seeds are owned through the getrandom shim and the sweep continues until every hash container of <= 4 elements has been observed (hook H3) in all its iteration orders at every site; all outputs of one project must be equal and every file's diagnostics ascending in (line, column); states = validate() calls compared; distinct_nontrivial = distinct iteration-order tuples observed",
+        "22 projects built to collide (several diagnostics on one line, several unresolved / unused imports and forward declarations, two imports matching one name, a declaration conflicting with several imports, one key registered twice, files without a tree, recovered syntax errors after validation diagnostics) x insertion orders (all permutations up to the stated cap) x plain / replace histories x base keys of new threads x repeated validate() calls; hash seeds are owned through the getrandom shim and the sweep continues until every hash container of <= 4 elements has been observed (hook H3) in all its iteration orders at every site; all outputs of one project must be equal and every file's diagnostics ascending in (line, column); states = validate() calls compared; distinct_nontrivial = distinct iteration-order tuples observed",
         &[
             "std's RandomState takes its keys from getrandom(2) once per thread and increments them per instance; the LD_PRELOAD shim makes them a function of the harness-chosen base key (self-tested at start-up)",
             "hook H3 only observes the order of the container the library is about to iterate",
